@@ -251,6 +251,16 @@ def check_iterative(w, out, op, m, t, b, c, strong, tol, solver, r):
             "error %.3e" % (np.linalg.norm(xv - c) / np.linalg.norm(c)), {"tol": tol})
     if count != len(res):
         rec(out, "C15:%s:iteration-count-differs-from-number-of-residuals" % tag, "%d vs %d" % (count, len(res)))
+    # the count must not depend on whether residuals are stored
+    try:
+        kw2 = dict(kw)
+        kw2["return_residuals"] = False
+        _, info_b, count_b = getattr(api.linalg, solver)(op, b, **kw2)
+        if count_b != count:
+            rec(out, "C15:%s:iteration-count-depends-on-return_residuals" % tag, "%d without vs %d with residuals" % (
+                count_b, count))
+    except Exception as ex:
+        rec(out, "C15:%s:raises-%s-without-residuals" % (tag, type(ex).__name__), str(ex)[:100])
     # the same SciPy run, observed directly
     mine = []
     if solver == "gmres":
